@@ -85,3 +85,21 @@ PROPS["C11"] = {
         {"pkg": MD, "func": "VerifH_C11_addremove", "covers": ["added", "removed"]},
     ],
 }
+
+RX = "internal/pkg/reactor"
+PROPS["C12"] = {
+    "level": "model_checking",
+    "explanation": "the real reactor (Start, ReceiveInsert, ReceiveFeedback, MarkAsFinished, Freeze, Stop, run, GetStateTable) is executed from its SSA together with its own "
+                   "goroutine; channel operations, select arm choice, sync.Map/Once/WaitGroup/context operations and every goroutine switch are decision variables of the executor, "
+                   "so every interleaving within the preemption bound and every client operation sequence within the bound is explored; a blocked call is detected as a state with no enabled goroutine.",
+    "bounds": "1-2 tokens; one client issuing up to 4 operations from {insert, read output, feedback, finish(+repeat), feedback unknown, finish unknown, freeze}; the reactor's run goroutine; <=2 preemptive context switches per path (switches at blocking points are free)",
+    "outside": "more than one concurrent client goroutine; more than 2 preemptions; non-seed items and duplicate ids (documented panics)",
+    "assumptions": COMMON_ASSUME + ["Go memory model taken as sequentially consistent at channel/sync/atomic operations; plain loads/stores are not preemption points (data-race freedom assumed)",
+                                    "select picks any ready arm (symbolic choice), default only when none is ready"],
+    "harnesses": [
+        {"pkg": RX, "func": "VerifH_C12_accounting3", "replay_tries": 40, "covers": ["delivered", "feedback", "finish", "feedback-unknown", "insert-blocks-when-full"]},
+        {"pkg": RX, "func": "VerifH_C12_freeze3", "replay_tries": 40, "covers": ["insert-after-freeze"]},
+        {"pkg": RX, "func": "VerifH_C12_stop", "replay_tries": 40, "covers": ["stopped"]},
+        {"pkg": RX, "func": "VerifH_C12_accounting4", "replay_tries": 40, "thorough_only": True, "covers": ["delivered", "feedback", "finish"]},
+    ],
+}
